@@ -85,7 +85,8 @@ def run_case(case, built=None, keep_obs=False):
         gate_events=case.get('gate_events', 0.0), gate_saves=case.get('gate_saves', 0.0),
         write_once=case.get('write_once', True),
         collab_faults={(c, k): True for c, k in case.get('collab_faults', [])},
-        start_gated=case.get('start_gated', False), sequential=(shape == 'seq'), pool_cap=case.get('pool_cap'))
+        start_gated=case.get('start_gated', False), sequential=(shape == 'seq'), pool_cap=case.get('pool_cap'),
+        shared_meta=case.get('shared_meta', False))
     findings = []
     findings += monitors.check_termination(obs)
     fd, ndisp = monitors.check_dispatch(obs, prog)
@@ -148,6 +149,9 @@ def run_case(case, built=None, keep_obs=False):
         r0 = obs.runs[0]
         stats['outcome_class'] = (r0.outcome, hashlib.sha1(repr(r0.value).encode()).hexdigest()[:10]
                                   if r0.outcome == 'value' else None)
+    if getattr(obs, 'meta_obj', None) is not None and obs.meta_obj != obs.meta_before:
+        findings.append(monitors.F(['C07', 'C08'], 'caller_meta_mutated', before=sorted(map(str, obs.meta_before)),
+                                   after=sorted(map(str, obs.meta_obj))))
     for f in findings:
         if f['kind'] == 'cancelled_escaped':
             # nobody cancelled the run and no body raised CancelledError: the engine cancelled work the run needed.
